@@ -2,7 +2,9 @@
 
 Stages: proofs (Properties_C02.v) -> correspondence A: real openapi_cases draws (negative and positive mode,
 explicit-argument shapes, both values of generation.modes) against Model_C02.label_case evaluated in Coq;
-the strategy handed to draw(), the drawn value, every reject() and SkipTest are observed through wrappers ->
+the strategy handed to draw(), the drawn value, every reject() and SkipTest are observed through wrappers; the class of
+header / cookie parameters is computed by the model from the schema as declared (Model_C02.header_class) -> correspondence D:
+as_json_schema + can_negate_headers of declared header / cookie parameters against header_prop_schema / header_class ->
 correspondence B: negate_constraints / change_type / remove_required_property run with a scripted draw against
 the Gallina mutations, python-jsonschema against Model_C02.valid -> correspondence C: coerce / wire_valid ->
 oracle search: every labelled part of every negative draw validated with python-jsonschema against an
@@ -47,7 +49,22 @@ HEADER_SCHEMAS = [
     ({"type": "string", "enum": ["a", "b"]}, "POther", True),
     ({"type": "boolean"}, "POther", True),
     ({"enum": ["a", "b"]}, "POther", True),  # no top-level type
+    # string headers / cookies with each constraint keyword (a text value can violate them), indices 6..13
+    ({"type": "string", "pattern": "^[a-z]{3}$"}, "POther", True),
+    ({"type": "string", "minLength": 3}, "POther", True),
+    ({"type": "string", "maxLength": 3}, "POther", True),
+    ({"type": "string", "format": "date"}, "POther", True),
+    ({"type": "string", "minLength": 2, "maxLength": 5}, "POther", True),
+    ({"type": "string", "format": "ipv4"}, "POther", True),
+    ({"type": "string", "pattern": "^[a-z]+$", "minLength": 2}, "POther", True),  # pattern + length: the converter rewrites the quantifier
+    ({"type": "string", "enum": ["only"], "description": "one value"}, "POther", True),
+    # annotations the converter drops: still the plain string header (14); an annotation it keeps (15): claimed negatable, is not (F7)
+    ({"type": "string", "description": "free text", "title": "T"}, "PStrOnly", False),
+    ({"type": "string", "example": "x"}, "POther", False),
 ]
+CONSTRAINED_HEADERS = [3, 5, 6, 7, 8, 9, 10, 11, 12, 13, 2, 4]  # a value of the header / cookie can violate the declared schema
+ANNOTATED_HEADER = 15
+HEADER_EXAMPLES = {6: "abc", 7: "abcd", 8: "ab", 9: "2020-01-31", 10: "abc", 11: "10.0.0.1", 12: "abc", 13: "only", 14: "v", 15: "v"}
 QUERY_SCHEMAS = [
     ({"type": "integer"}, "POther", True),
     ({"type": "string"}, "PStrOnly", False),
@@ -82,6 +99,40 @@ BODY_SCHEMAS = [
 TYPELESS_BODY = [6, 7, 8, 9, 10, 12]
 
 
+def _own_format_checker():
+    """The harness own reading of the formats used in the header table (python-jsonschema Draft 4 knows neither date nor uuid)."""
+    import datetime
+    import ipaddress
+
+    import jsonschema
+
+    fc = jsonschema.FormatChecker(formats=())
+
+    @fc.checks("date", raises=ValueError)
+    def _date(value):  # RFC 3339 full-date
+        if not isinstance(value, str):
+            return True
+        if not re.fullmatch(r"[0-9]{4}-[0-9]{2}-[0-9]{2}", value):
+            raise ValueError(value)
+        datetime.date(int(value[:4]), int(value[5:7]), int(value[8:]))
+        return True
+
+    @fc.checks("ipv4", raises=ValueError)
+    def _ipv4(value):
+        if not isinstance(value, str):
+            return True
+        if not re.fullmatch(r"[0-9]{1,3}(\.[0-9]{1,3}){3}", value):
+            raise ValueError(value)
+        ipaddress.IPv4Address(value)
+        return True
+
+    return fc
+
+
+FORMATS = _own_format_checker()
+KNOWN_FORMATS = ("date", "ipv4")
+
+
 def declared_schema(schema, version=3):
     """The harness own reading of a schema AS DECLARED in the document as Draft 4 (never the converter of the code under test):
     everything is Draft 4 already except nullable / x-nullable."""
@@ -108,6 +159,8 @@ def declared_schema(schema, version=3):
 def valid_example(loc, idx):
     """A value that satisfies the parameter schema as declared (what a caller would pass explicitly)."""
     sch = SCHEMAS[loc][idx][0]
+    if loc in ("header", "cookie") and idx in HEADER_EXAMPLES:
+        return HEADER_EXAMPLES[idx]
     if "enum" in sch:
         v = sch["enum"][0]
     elif sch.get("type") == "integer" or "minimum" in sch or "anyOf" in sch:
@@ -151,6 +204,8 @@ def gen_shape(rng, force=None):
                 idx = 1  # a string-only path parameter makes the negative strategy empty (slow): keep it rare
             if shape["version"] == 2 and "type" not in SCHEMAS[loc][idx][0]:
                 idx = rng.choice(typed_indices(loc))  # Swagger 2.0 non-body parameters always carry a type
+            if loc in ("header", "cookie") and idx == ANNOTATED_HEADER and rng.random() < 0.7:
+                idx = 14  # the kept-annotation header empties the negative strategy of the whole operation (F7, slow): keep it rare
             ps.append({"name": name, "schema_idx": idx, "required": True if loc == "path" else rng.random() < 0.5})
         shape["params"][loc] = ps
         # explicit argument: not given / {} / some of the names / all names / a name that is not a parameter
@@ -206,12 +261,57 @@ def gen_shape(rng, force=None):
     return shape
 
 
+def gen_header_focus(rng):
+    """Operations whose only violable inputs are headers / cookies: every constrained string (or typed) header schema of the
+    table, in a header and in a cookie, alone in the operation or next to inputs that cannot be negated (a plain string
+    header, an accept-anything path parameter, a body that accepts everything), and once next to a negatable query."""
+    jobs = []
+    for n, idx in enumerate(CONSTRAINED_HEADERS + [14, ANNOTATED_HEADER]):
+        for loc in ("header", "cookie"):
+            version = 2 if (loc == "header" and "type" in HEADER_SCHEMAS[idx][0] and rng.random() < 0.25) else 3
+            shape = {"params": {l: [] for l in LOCS}, "explicit": {l: None for l in LOCS}, "body": None, "body_explicit": False, "version": version}
+            name, other = ("X-A", "X-B") if loc == "header" else ("ca", "cb")
+            ps = [{"name": name, "schema_idx": idx, "required": rng.random() < 0.3}]
+            company = rng.choice(["alone", "alone", "plain_sibling", "constrained_sibling", "plain_other_location", "open_body", "top_path", "query"])
+            if company == "plain_sibling":
+                ps.append({"name": other, "schema_idx": rng.choice([0, 1, 14] if version == 3 else [0, 14]), "required": False})
+                if rng.random() < 0.5:
+                    ps.reverse()
+            elif company == "constrained_sibling" and idx != ANNOTATED_HEADER:
+                ps.append({"name": other, "schema_idx": rng.choice([i for i in CONSTRAINED_HEADERS if version == 3 or "type" in HEADER_SCHEMAS[i][0]]), "required": rng.random() < 0.3})
+            elif company == "plain_other_location" and version == 3:
+                oloc = "cookie" if loc == "header" else "header"
+                shape["params"][oloc] = [{"name": "X-B" if oloc == "header" else "cb", "schema_idx": 0, "required": False}]
+            elif company == "open_body":
+                shape["body"] = {"required": rng.random() < 0.5, "alts": [{"media": "application/json", "schema_idx": rng.choice([0, 1])}]}
+            elif company == "top_path" and version == 3:
+                shape["params"]["path"] = [{"name": "id", "schema_idx": 2, "required": True}]
+            elif company == "query":
+                shape["params"]["query"] = [{"name": "q", "schema_idx": 0, "required": rng.random() < 0.5}]
+            shape["params"][loc] = ps
+            jobs.append((shape, "Neg", ["Neg"] if (n + (loc == "cookie")) % 2 == 0 else ["Pos", "Neg"]))
+    return jobs
+
+
 def v2_schema(schema):
     if isinstance(schema, dict):
         return {("x-nullable" if k == "nullable" else k): (v2_schema(v) if k != "enum" else v) for k, v in schema.items()}
     if isinstance(schema, list):
         return [v2_schema(x) for x in schema]
     return schema
+
+
+def param_object_v2(loc, p):
+    """Swagger 2.0: the keywords sit in the parameter object itself."""
+    return {"name": p["name"], "in": loc, "required": p["required"], **copy.deepcopy(SCHEMAS[loc][p["schema_idx"]][0])}
+
+
+def declared_header(shape, loc, p):
+    """What the document declares for one header / cookie parameter, as the model reads it: (is 2.0, the dict holding the
+    keywords, the parameter-level example values)."""
+    if shape.get("version", 3) == 2:
+        return True, param_object_v2(loc, p), []
+    return False, copy.deepcopy(SCHEMAS[loc][p["schema_idx"]][0]), []
 
 
 def build_document_v2(shape):
@@ -222,7 +322,7 @@ def build_document_v2(shape):
         if loc == "cookie":
             continue
         for p in shape["params"][loc]:
-            params.append({"name": p["name"], "in": loc, "required": p["required"], **copy.deepcopy(SCHEMAS[loc][p["schema_idx"]][0])})
+            params.append(param_object_v2(loc, p))
     op = {"responses": {"200": {"description": "ok"}}}
     if shape["body"] is not None:
         alts = shape["body"]["alts"]
@@ -454,9 +554,25 @@ def c_dict(d, ids):
     return clist([ctuple(cstr(str(k)), cN(ids.of(v))) for k, v in d.items()], "(str * N)")
 
 
+def c_jdict(d):
+    return clist([ctuple(cstr(str(k)), cjson(v)) for k, v in d.items()], "(str * json)")
+
+
+def c_hparam(name, v2, decl, exs, required):
+    return f"{{| h_name := {cstr(name)}; h_decl := {c_jdict(decl)}; h_examples := {clist([cjson(e) for e in exs], 'json')}; h_required := {cbool(required)} |}}"
+
+
 def c_loc(shape, loc, drawn):
     ids = Ids()
-    ps = clist([ctuple(cstr(p["name"]), SCHEMAS[loc][p["schema_idx"]][1]) for p in shape["params"][loc]], "(str * pclass)")
+    if loc in ("header", "cookie"):
+        # the class of a header / cookie is computed by the MODEL from the schema as declared (Model_C02.header_class)
+        hs = []
+        for p in shape["params"][loc]:
+            v2, decl, exs = declared_header(shape, loc, p)
+            hs.append(c_hparam(p["name"], v2, decl, exs, p["required"]))
+        ps = f"(header_params {cbool(shape.get('version', 3) == 2)} {clist(hs, 'hparam')})"
+    else:
+        ps = clist([ctuple(cstr(p["name"]), SCHEMAS[loc][p["schema_idx"]][1]) for p in shape["params"][loc]], "(str * pclass)")
     ex = shape["explicit"][loc]
     e = "ENotSet" if ex is None else f"(EDict {c_dict(ex, ids)})"
     if drawn is None:
@@ -600,9 +716,12 @@ def wire_valid_value(schema, v):
         return t in ("true", "false")
     if "enum" in schema:
         return t in [wire_text(e) for e in schema["enum"]]
-    if len(t) < schema.get("minLength", 0):
-        return False
-    return True
+    if ty not in (None, "string"):
+        return True  # arrays / objects / null as text: not judged
+    import jsonschema
+
+    text_schema = {k: schema[k] for k in ("minLength", "maxLength", "pattern", "format") if k in schema}
+    return jsonschema.Draft4Validator(text_schema, format_checker=FORMATS).is_valid(t)
 
 
 def wire_valid_location(lschema, value):
@@ -646,7 +765,7 @@ def oracle_case(chk, shape, event, mode, stats):
         explicit = shape["explicit"][loc] or {}
         lschema = location_schema(shape, loc)
         judged = {k: (unquote_plus(v) if loc == "path" and isinstance(v, str) else v) for k, v in dict(value).items()} if hasattr(value, "items") else value
-        ok = jsonschema.Draft4Validator(lschema).is_valid(judged)
+        ok = jsonschema.Draft4Validator(lschema, format_checker=FORMATS).is_valid(judged)
         stats["parts_checked"] += 1
         if label == "NEGATIVE":
             if ok and explicit:
@@ -666,7 +785,7 @@ def oracle_case(chk, shape, event, mode, stats):
                 else:
                     all_neg_wire_valid = False
         else:
-            explicit_ok = all(k in lschema["properties"] and (jsonschema.Draft4Validator(lschema["properties"][k]).is_valid(v) or wire_valid_value(lschema["properties"][k], v)) for k, v in explicit.items())
+            explicit_ok = all(k in lschema["properties"] and (jsonschema.Draft4Validator(lschema["properties"][k], format_checker=FORMATS).is_valid(v) or wire_valid_value(lschema["properties"][k], v)) for k, v in explicit.items())
             if explicit_ok and not ok and not wire_valid_location(lschema, judged):
                 chk.fail("component labelled positive violates its schema", inp, {"component": CONTAINER[loc], "value": repr(value)[:200]})
     blabel = comps.get("body")
@@ -715,19 +834,90 @@ def code_location_schema_names(shape, loc):
     return names, required
 
 
+ANNOTATION_KEYS = ("title", "description", "default", "deprecated", "example", "examples", "externalDocs")
+TEXT_POOL = ["", "a", "zz", "abc", "abcdefghijklmnopqrstuvwxyz0123456789", "0", "-1", "12", "true", "null", "2020-01-31", "10.0.0.1", "x y", "%", "\u00e9"]
+
+
+def header_verdict(schema):
+    """Independent reading of ONE header / cookie schema as declared (never can_negate_headers): is there a value of the
+    header that violates the schema and survives serialisation?  Every header value is text on the wire, so the candidates
+    are texts, read as the declared type.  ("value", text) = yes, with a witness; ("no", None) = certainly not (the schema
+    is type string plus annotations); (None, None) = not decided here (no demand is derived from it)."""
+    declared = dict(schema)
+    declared.setdefault("type", "string")
+    if declared.get("format") is not None and declared["format"] not in KNOWN_FORMATS:
+        return None, None
+    for text in TEXT_POOL:
+        if not wire_valid_value(declared, text):
+            return "value", text
+    if declared["type"] == "string" and all(k == "type" or k in ANNOTATION_KEYS or k.startswith("x-") for k in declared):
+        return "no", None
+    return None, None
+
+
 def truly_negatable(shape):
-    """Independent reading: can some input of the operation be violated?  Returns (bool, only_required_string_headers)."""
+    """Independent reading of the whole operation: can some input be violated?
+    Returns (negatable, only by omitting a required header / cookie, some header schema not decided)."""
     value_level = False
     by_removal = False
+    undecided = False
     for loc in LOCS:
         for p in shape["params"][loc]:
-            if SCHEMAS[loc][p["schema_idx"]][2] or loc == "query":
+            sch, _, flag = SCHEMAS[loc][p["schema_idx"]]
+            if loc in ("header", "cookie"):
+                verdict, _ = header_verdict(sch)
+                assert verdict is None or (verdict == "value") == flag, (sch, verdict, flag)  # the table agrees with the reading
+                if verdict == "value":
+                    value_level = True
+                elif p["required"]:
+                    by_removal = True
+                if verdict is None:
+                    undecided = True
+            elif flag or loc == "query":
                 value_level = True  # a query with declared parameters is always violable by an undeclared name
-            elif loc != "path" and p["required"]:
-                by_removal = True
     if shape["body"] is not None and any(BODY_SCHEMAS[a["schema_idx"]][1] for a in shape["body"]["alts"]):
         value_level = True
-    return value_level or by_removal, (by_removal and not value_level)
+    return value_level or by_removal, (by_removal and not value_level), undecided
+
+
+def has_annotated_header(shape):
+    return any(p["schema_idx"] == ANNOTATED_HEADER for loc in ("header", "cookie") for p in shape["params"][loc])
+
+
+def oracle_operation(chk, shape, mode, modes, events, final, stats):
+    """Property text on one operation in negative mode without explicit arguments: an operation with an input that can be
+    violated gets negative cases (no SkipTest, not every draw rejected = positive-only data when positive is enabled too);
+    one with none is skipped (modes [negative]) instead of failing or producing cases."""
+    if mode != "Neg" or any(v is not None for v in shape["explicit"].values()) or shape["body_explicit"]:
+        return
+    if shape["body"] is not None and any(a["media"] == MEDIA_BAD for a in shape["body"]["alts"]):
+        return
+    neg, only_removal, undecided = truly_negatable(shape)
+    if undecided:
+        return
+    string_path = any(SCHEMAS["path"][p["schema_idx"]][1] == "PStrOnly" for p in shape["params"]["path"])
+    annotated = has_annotated_header(shape)
+    inp = {"shape": shape, "mode": mode, "modes": modes}
+    n_cases = sum(1 for e in events if e["kind"] == "case")
+    n_label_rejects = sum(1 for e in events if e["kind"] == "reject")  # openapi_cases found nothing negated in the draw
+    if neg and final == "skip":
+        stats["skip_although_negatable"] += 1
+        chk.fail("operation with an input that can be violated is skipped", inp, {"final": final}, region="required_string_header_skipped" if only_removal else None)
+    elif neg and final == "unsat" and n_cases == 0 and n_label_rejects > 12:
+        # every draw of the negative strategy was rejected because no part was negated: with positive mode enabled as well the
+        # operation is only ever tested with positive data
+        stats["rejected_although_negatable"] += 1
+        chk.fail("operation with an input that can be violated gets no negative cases (every negative draw is rejected, positive data only)", inp,
+                 {"final": final, "rejected_draws": n_label_rejects}, region="required_string_header_skipped" if only_removal else None)
+    elif neg and final == "unsat" and n_cases == 0 and annotated:
+        stats["unsat_although_negatable"] += 1
+        chk.fail("operation with an input that can be violated gets no negative cases (Unsatisfiable)", inp, {"final": final}, region="annotated_string_header_unsatisfiable")
+    elif not neg and final == "unsat" and modes == ["Neg"]:
+        stats["unsat_instead_of_skip"] += 1
+        region = "string_path_unsatisfiable" if string_path else "annotated_string_header_unsatisfiable" if annotated else None
+        chk.fail("operation that cannot be negated ends in Unsatisfiable instead of a skip", inp, {"final": final}, region=region)
+    elif not neg and final == "ok" and n_cases:
+        chk.fail("operation that cannot be negated produced negative cases", inp, {"cases": n_cases})
 
 
 # ----------------------------------------------------------------------------------------
@@ -737,7 +927,7 @@ def stage_labels(chk, n_ops, n_examples):
         "operations": 0, "events": 0, "cases": 0, "skips": 0, "rejects": 0, "raises": 0, "unsat": 0,
         "parts_checked": 0, "absent_labelled_negative": 0, "notset_body_labelled_negative": 0,
         "wire_valid_negative_parts": 0, "cases_valid_on_the_wire": 0, "skip_although_negatable": 0, "unsat_instead_of_skip": 0,
-        "merged_valid_negative": 0, "exclusion_checks": 0,
+        "merged_valid_negative": 0, "exclusion_checks": 0, "rejected_although_negatable": 0, "unsat_although_negatable": 0, "header_focus_operations": 0,
     }
     corpus = [json.loads(p.read_text()) for p in sorted((core.VERIF / "corpus" / "C02").glob("shape_*.json"))]
     jobs = [(c["shape"], c.get("mode", "Neg"), c.get("modes", ["Neg"])) for c in corpus]
@@ -750,12 +940,20 @@ def stage_labels(chk, n_ops, n_examples):
             jobs.append((shape, "Neg", ["Pos", "Neg"]))
         else:
             jobs.append((shape, "Pos", rng.choice([["Pos"], ["Pos", "Neg"]])))
+    focus = gen_header_focus(rng)
+    stats["header_focus_operations"] = len(focus)
+    jobs = jobs[: len(corpus)] + focus + jobs[len(corpus):]
     pending = []
     excl_jobs = []
+    hdr_jobs = {}
     with Observer() as obs:
         for shape, mode, modes in jobs:
-            events, final, _ = run_operation(obs, shape, mode, modes, rng.getrandbits(32), n_examples)
+            events, final, operation = run_operation(obs, shape, mode, modes, rng.getrandbits(32), n_examples)
             stats["operations"] += 1
+            for loc in ("header", "cookie"):
+                if shape["params"][loc]:
+                    key = json.dumps([shape.get("version", 3), loc, shape["params"][loc]], sort_keys=True)
+                    hdr_jobs.setdefault(key, (shape, loc, bool(obs.H.can_negate_headers(operation, loc))))
             for loc, got in obs.excluded.items():
                 names, required = code_location_schema_names(shape, loc)
                 excl_jobs.append((shape, loc, list(shape["explicit"][loc] or {}), names, required, got))
@@ -773,26 +971,12 @@ def stage_labels(chk, n_ops, n_examples):
                     continue
                 seen_states.add(key)
                 pending.append((shape, ev, mode, modes))
-            # operation-level oracle: negative-only mode without explicit arguments
-            if mode == "Neg" and modes == ["Neg"] and all(v is None for v in shape["explicit"].values()) and not shape["body_explicit"]:
-                neg, only_removal = truly_negatable(shape)
-                has_bad_media = shape["body"] is not None and any(a["media"] == MEDIA_BAD for a in shape["body"]["alts"])
-                if has_bad_media:
-                    pass
-                elif neg and final == "skip":
-                    stats["skip_although_negatable"] += 1
-                    chk.fail("operation with an input that can be violated is skipped", {"shape": shape}, region="required_string_header_skipped" if only_removal else None)
-                elif not neg and final == "unsat":
-                    stats["unsat_instead_of_skip"] += 1
-                    string_path = any(SCHEMAS["path"][p["schema_idx"]][1] == "PStrOnly" for p in shape["params"]["path"])
-                    chk.fail("operation that cannot be negated ends in Unsatisfiable instead of a skip", {"shape": shape}, region="string_path_unsatisfiable" if string_path else None)
-                elif not neg and final == "ok":
-                    chk.fail("operation that cannot be negated produced negative cases", {"shape": shape})
+            oracle_operation(chk, shape, mode, modes, events, final, stats)
     # the model on every distinct observation
     exprs = []
     for shape, ev, mode, modes in pending:
         op = c_op(shape, ev["state"], mode)
-        exprs.append(f"(label_case {mode} {clist(modes, 'gmode')} {op}, draws_fit {mode} {op})")
+        exprs.append(f"(let op := {op} in (label_case {mode} {clist(modes, 'gmode')} op, draws_fit {mode} op))")
     model = core.coq_eval(IMPORTS, exprs)
     for (shape, ev, mode, modes), (m_out, m_fit) in zip(pending, model):
         impl = impl_view(ev, shape)
@@ -809,6 +993,16 @@ def stage_labels(chk, n_ops, n_examples):
             chk.sample({"mode": mode, "modes": modes, "explicit": shape["explicit"], "labels": {k: v["label"] for k, v in impl["parts"].items()}})
     stats["distinct_observations"] = len(pending)
     resolve_merged(chk, stats)
+    # can_negate_headers of the code against the model predicate over the classes computed from the declared schemas
+    hdr = list(hdr_jobs.values())
+    exprs = [f"can_negate_headers (l_params {c_loc(shape, loc, None)})" for shape, loc, _ in hdr]
+    for (shape, loc, got), mod in zip(hdr, core.coq_eval(IMPORTS, exprs)):
+        stats["can_negate_headers_checks"] = stats.get("can_negate_headers_checks", 0) + 1
+        inp = {"version": shape.get("version", 3), "location": loc,
+               "parameters": [{"name": p["name"], "required": p["required"], "schema": SCHEMAS[loc][p["schema_idx"]][0]} for p in shape["params"][loc]]}
+        chk.seen({"can_negate_headers": inp}, got)
+        if got != mod:
+            chk.disagree("can_negate_headers vs Model_C02.can_negate_headers (header_params ...)", inp, got, mod)
     # the exclusion step of get_parameters_strategy against Model_C02.exclude_names
     exprs = []
     for shape, loc, excluded, names, required, got in excl_jobs:
@@ -1111,6 +1305,132 @@ def stage_mutations(chk, n):
 
 
 # ----------------------------------------------------------------------------------------
+# stage D: the class of a header / cookie parameter from the schema as declared (no data generation)
+# ----------------------------------------------------------------------------------------
+def gen_declared_header(rng):
+    """A header / cookie parameter as a document would declare it: keywords in random order and combination."""
+    version = 2 if rng.random() < 0.3 else 3
+    loc = "header" if version == 2 or rng.random() < 0.6 else "cookie"
+    nullable = "x-nullable" if version == 2 else "nullable"
+    pool = {
+        "type": lambda: rng.choice(["string"] * 6 + ["integer", "boolean", "number", "array"] + (["file"] if version == 2 else [])),
+        "enum": lambda: rng.choice([["a", "b"], ["only"], [1, 2], []]),
+        "pattern": lambda: rng.choice(["^[a-z]{3}$", "^a", "[0-9]+"]),
+        "minLength": lambda: rng.choice([0, 0, 1, 3]),
+        "maxLength": lambda: rng.choice([0, 3, 100]),
+        "format": lambda: rng.choice(["date", "ipv4", "unknownfmt", "binary"]),
+        "example": lambda: rng.choice(["x", 1, None]),
+        "examples": lambda: ["x", "y"],
+        "title": lambda: "T",
+        "description": lambda: "free text",
+        "default": lambda: "d",
+        "deprecated": lambda: True,
+        "readOnly": lambda: rng.random() < 0.5,
+        "x-internal": lambda: "yes",
+        nullable: lambda: rng.random() < 0.6,
+        "minimum": lambda: 3,
+        "maxItems": lambda: 2,
+        "items": lambda: {"type": "string"},
+    }
+    keys = [k for k in pool if rng.random() < (0.55 if k == "type" else 0.12)]
+    if rng.random() < 0.2:
+        keys = rng.choice([[], ["type"], ["description", "type"], ["type", "title", "default"]])
+    rng.shuffle(keys)
+    schema = {k: pool[k]() for k in keys}
+    if version == 2:
+        schema.setdefault("type", "string")  # a 2.0 non-body parameter always carries a type
+    param = {"name": "X-A" if loc == "header" else "ca", "in": loc, "required": rng.random() < 0.3}
+    if rng.random() < 0.3:
+        param["description"] = "parameter level text"
+    exs = []
+    if rng.random() < 0.12:
+        many = {"one": {"value": "p"}, "two": {"summary": "no value"}, "three": {"value": 7}}
+        param["x-examples" if version == 2 else "examples"] = many
+        exs += ["p", 7]
+    if rng.random() < 0.15:
+        param["x-example" if version == 2 else "example"] = "q"
+        exs.append("q")
+    if version == 2:
+        param.update(schema)
+        decl = dict(param)
+    else:
+        param["schema"] = schema
+        decl = dict(schema)
+    return {"version": version, "loc": loc, "param": param, "schema": schema, "decl": decl, "examples": exs}
+
+
+def jdict_back(v):
+    return {pstr(k): pjson(x) for k, x in v}
+
+
+def stage_header_class(chk, n):
+    import schemathesis
+    import schemathesis.specs.openapi._hypothesis as H
+    from schemathesis.specs.openapi.parameters import parameters_to_json_schema
+
+    rng = chk.rng
+    stats = {"parameters": 0, "class_other": 0, "schemas_compared_exactly": 0, "oracle_verdicts_compared": 0, "rejected_by_the_code": 0}
+    cases = []
+    for idx, (sch, _, _) in enumerate(HEADER_SCHEMAS):  # the table used by the data generation stage first
+        for version, loc in ((3, "header"), (3, "cookie"), (2, "header")):
+            if version == 2 and "type" not in sch:
+                continue
+            p = {"name": "X-A" if loc == "header" else "ca", "schema_idx": idx, "required": idx % 2 == 0}
+            shape = {"version": version}
+            v2, decl, exs = declared_header(shape, loc, p)
+            param = param_object_v2(loc, p) if v2 else {"name": p["name"], "in": loc, "required": p["required"], "schema": copy.deepcopy(sch)}
+            cases.append({"version": version, "loc": loc, "param": param, "schema": copy.deepcopy(sch), "decl": decl, "examples": exs})
+    for _ in range(n):
+        cases.append(gen_declared_header(rng))
+    runs = []
+    exprs = []
+    # one document per dialect, one path per declared parameter
+    docs = {}
+    for n, c in enumerate(cases):
+        c["path"] = f"/x{n}"
+        head = {"swagger": "2.0"} if c["version"] == 2 else {"openapi": "3.0.2"}
+        doc = docs.setdefault(c["version"], {**head, "info": {"title": "t", "version": "1"}, "paths": {}})
+        doc["paths"][c["path"]] = {"post": {"parameters": [copy.deepcopy(c["param"])], "responses": {"200": {"description": "ok"}}}}
+    loaded = {version: schemathesis.openapi.from_dict(doc) for version, doc in docs.items()}
+    for c in cases:
+        try:
+            operation = loaded[c["version"]][c["path"]]["POST"]
+            params = getattr(operation, "headers" if c["loc"] == "header" else "cookies")
+            conv = parameters_to_json_schema(operation, params)["properties"][c["param"]["name"]]
+            impl = {"schema": conv, "class": "POther" if H.can_negate_headers(operation, c["loc"]) else "PStrOnly"}
+        except Exception as exc:  # noqa: BLE001
+            stats["rejected_by_the_code"] += 1
+            chk.count(f"header_class_rejected:{type(exc).__name__}")
+            continue
+        v2 = cbool(c["version"] == 2)
+        d, e = c_jdict(c["decl"]), clist([cjson(x) for x in c["examples"]], "json")
+        exprs.append(f"(let d := {d} in let e := {e} in (header_prop_schema {v2} d e, header_class {v2} d e, hdr_exact d, header_value_violable d))")
+        runs.append((c, impl))
+    for (c, impl), (m_schema, m_class, m_exact, m_violable) in zip(runs, core.coq_eval(IMPORTS, exprs, shard=60)):
+        stats["parameters"] += 1
+        inp = {k: c[k] for k in ("version", "loc", "param", "examples")}
+        chk.seen({"header_class": inp}, impl["class"] == "POther")
+        chk.count(f"header_class:{impl['class']}")
+        stats["class_other"] += impl["class"] == "POther"
+        if impl["class"] != m_class:
+            chk.disagree("can_negate_headers on one parameter vs Model_C02.header_class of the declared schema", inp, impl, {"class": m_class, "schema": jdict_back(m_schema)})
+            continue
+        if m_exact is True:
+            stats["schemas_compared_exactly"] += 1
+            mod = jdict_back(m_schema)
+            if json.dumps(impl["schema"], sort_keys=True) != json.dumps(mod, sort_keys=True):
+                chk.disagree("as_json_schema of a header / cookie parameter vs Model_C02.header_prop_schema", inp, impl["schema"], mod)
+                continue
+        # the harness reading used by the operation oracle against the predicate the theorems are stated with
+        verdict, witness = header_verdict(c["schema"])
+        if verdict is not None:
+            stats["oracle_verdicts_compared"] += 1
+            if (verdict == "value") != (m_violable is True):
+                chk.disagree("header_verdict of the oracle vs Model_C02.header_value_violable", inp, {"verdict": verdict, "witness": witness}, {"header_value_violable": m_violable})
+    return stats
+
+
+# ----------------------------------------------------------------------------------------
 # stage C: text form of scalar values
 # ----------------------------------------------------------------------------------------
 def stage_coercion(chk, n):
@@ -1151,12 +1471,15 @@ def run(chk: core.Check):
         "validity of the fragment, string coercion of scalars)",
         "correspondence harness harness/props/c02.py (shape generator, wrappers around get_parameters_strategy/_get_body_strategy/reject, "
         "scripted draw stub, encoders, the Coq output parser)",
-        "python-jsonschema Draft4Validator as the reference for validity (also used by the implementation filter)",
+        "python-jsonschema Draft4Validator as the reference for validity (also used by the implementation filter); the harness own format checks for date and ipv4; "
+        "the harness reading header_verdict (a header / cookie can be violated iff a text of its pool is rejected by the declared schema read as the declared type)",
     ]
     chk.assumptions = [
         "Hypothesis: none() returns None, an object strategy returns a dict, x.filter(p) only returns values satisfying p (draws_fit is re-checked on every observed draw)",
         "hypothesis-jsonschema: from_schema(s) returns values valid for s; canonicalish(s) == {} is taken as an input fact (cantop / class PTop)",
         "parameter names of one location are unique; no hooks are registered on the operation",
+        "header / cookie schemas: keys of a declared schema are unique (a Python dict); the quantifier rewriting of pattern + length and the conversion of nested sub-schemas "
+        "are not modelled (they never change whether the converted schema equals {type: string}; checked per run by the header_class stage)",
         "validity of sub-schemas under properties/items is an arbitrary function in the soundness theorems (python-jsonschema in the run)",
     ]
     chk.rule = (
@@ -1165,13 +1488,18 @@ def run(chk: core.Check):
         "negatable and non-negatable schemas (40% without a top-level type: properties/required, items, enum, anyOf, allOf only; nullable), optional or required, explicit or not; every labelled part validated against the schema as declared in the document (harness own conversion); mode Neg with modes [Neg] or [Pos,Neg], mode Pos; non-trivial = an observation "
         "(case/skip/reject/raise with the drawn values) whose labels are not uniform.  B: schemas of the fragment (random key subsets and orders, type lists, "
         "empty required, empty-string and non-ASCII property names, chained not-inputs) x location x scripted choices; non-trivial = the mutation succeeds.  "
-        "C: integers up to 70 bits, booleans, null, digit/word-like strings.  Distinct by canonical JSON"
+        "C: integers up to 70 bits, booleans, null, digit/word-like strings.  D: header / cookie parameters as declared (the table + random key subsets and orders over type, enum, pattern, "
+        "lengths incl. 0, formats, example(s), dropped annotations, vendor extensions, nullable, file, numeric keywords, parameter-level example(s); OpenAPI 3.0 and Swagger 2.0): converted schema and "
+        "can_negate_headers against Model_C02.header_prop_schema / header_class, the oracle reading against header_value_violable; non-trivial = claimed negatable.  "
+        "A also runs, on every seed, one operation per constrained header schema (enum, pattern, minLength, maxLength, format, typed) x {header, cookie} whose only violable input is that "
+        "parameter (alone / plain sibling / constrained sibling / other location / open body / accept-anything path / query), modes [Neg] and [Pos,Neg].  Distinct by canonical JSON"
     )
     chk.proofs(["Common", "C02"])
     boost = 10 if chk.broken else 1
     chk.stages["mutations"] = stage_mutations(chk, 1500 if quick else 12000)
     chk.stages["coercion"] = stage_coercion(chk, 200 if quick else 3000)
-    chk.stages["labels"] = stage_labels(chk, (150 if quick else 1000) * boost, 6 if quick else 10)
+    chk.stages["header_class"] = stage_header_class(chk, 400 if quick else 4000)
+    chk.stages["labels"] = stage_labels(chk, (125 if quick else 850) * boost, 6 if quick else 10)
     for f in chk.findings:
         chk.known(f, witness_fails(f["witness"]))
 
@@ -1216,6 +1544,14 @@ def witness_fails(w) -> bool:
             shape = _shape({"header": [{"name": "X-A", "schema_idx": 0, "required": True}]})
             events, final, _ = run_operation(obs, shape, "Neg", ["Neg"], 1, 3)
             return final == "skip"
+        if kind == "annotated_header":
+            # an optional string header whose schema carries only a kept annotation (example): alone, and next to a negatable query
+            alone = _shape({"header": [{"name": "X-A", "schema_idx": ANNOTATED_HEADER, "required": False}]})
+            _, final_alone, _ = run_operation(obs, alone, "Neg", ["Neg"], 1, 3)
+            with_query = _shape({"header": [{"name": "X-A", "schema_idx": ANNOTATED_HEADER, "required": False}],
+                                 "query": [{"name": "q", "schema_idx": 0, "required": True}]})
+            events, final_query, _ = run_operation(obs, with_query, "Neg", ["Neg"], 1, 3)
+            return final_alone == "unsat" and final_query == "unsat" and not any(e["kind"] == "case" for e in events)
         if kind == "explicit_empty":
             params = {"header": [{"name": "X-A", "schema_idx": 2, "required": True}]}
             _, final_explicit, _ = run_operation(obs, _shape(params, explicit={"header": {}}), "Neg", ["Neg"], 1, 40)
@@ -1288,12 +1624,14 @@ def replay_shape(shape, mode="Neg", modes=("Neg",), seeds=(0, 1, 2, 3), n=20):
     chk = core.Check("C02", "quick", 0)
     chk.findings = []  # every failing part is reported, listed region or not
     stats = {k: 0 for k in ("parts_checked", "absent_labelled_negative", "notset_body_labelled_negative", "wire_valid_negative_parts", "cases_valid_on_the_wire", "merged_valid_negative")}
+    stats.update({k: 0 for k in ("skip_although_negatable", "rejected_although_negatable", "unsat_although_negatable", "unsat_instead_of_skip")})
     with Observer() as obs:
         for sd in seeds:
             events, final, _ = run_operation(obs, shape, mode, list(modes), sd, n)
             for ev in events:
                 if ev["kind"] == "case" and mode == "Neg":
                     oracle_case(chk, shape, ev, mode, stats)
+            oracle_operation(chk, shape, mode, list(modes), events, final, stats)
     resolve_merged(chk, stats)
     return chk.failures
 
@@ -1307,11 +1645,12 @@ def replay(payload) -> int:
     seen = set()
     for f in payload.get("failing_inputs", []):
         shape = (f.get("input") or {}).get("shape")
-        key = json.dumps(shape, sort_keys=True)
+        key = json.dumps([shape, (f.get("input") or {}).get("modes")], sort_keys=True)
         if shape is None or key in seen:
             continue
         seen.add(key)
-        fails = [x for x in replay_shape(shape) if x["region"] is None or x["region"] == f.get("region")]
+        inp = f.get("input") or {}
+        fails = [x for x in replay_shape(shape, inp.get("mode", "Neg"), inp.get("modes") or ("Neg",)) if x["region"] is None or x["region"] == f.get("region")]
         print("shape", json.dumps(shape)[:600])
         print("  ->", "FAILS: " + "; ".join(sorted({x["what"] + " " + str(x["detail"])[:120] for x in fails}))[:600] if fails else "passes")
     return 0
